@@ -148,6 +148,10 @@ def worker_main(prop, cases_path, out_path):
         mod = load_check(prop)
         with open(cases_path) as f:
             cases = json.load(f)
+        # the process has used other parts of the package before (see harness/prelude.py);
+        # runs before the monitors are attached, so nothing of it is counted as coverage
+        from harness import prelude
+        prelude_steps = prelude.run()
         reach = None
         if getattr(mod, "REACH", None):
             from harness.monitors import reach as reach_mod
@@ -164,7 +168,9 @@ def worker_main(prop, cases_path, out_path):
                 hung += any(v.get("kind") == "no-termination" for v in res["violations"])
                 if hung >= 2:
                     break  # the verdict is already "violated"; do not wait for the rest
-            tail = {"worker_done": True, "obs": {}}
+            tail = {"worker_done": True,
+                    "obs": {"earlier_uses_of_the_package_in_the_worker":
+                            {k: 1 for k in prelude_steps}}}
             if reach is not None:
                 reach.stop()
                 tail["obs"]["calls"] = reach.counts()
@@ -390,6 +396,8 @@ def replay(prop, path):
     os.environ["TMPDIR"] = scratch
     tempfile.tempdir = scratch
     try:
+        from harness import prelude
+        prelude.run()
         if hasattr(mod, "worker_init"):
             mod.worker_init()
         res = run_one(mod, rec["case"])
